@@ -160,6 +160,7 @@ func (i *IRCServer) Marshal(lastIncludedIndex uint64) ([]byte, error) {
 		MaxSessions:             i.Config.MaxSessions,
 		MaxChannels:             i.Config.MaxChannels,
 		Banned:                  i.Config.Banned,
+		WhitelistedOrigins:      i.Config.WhitelistedOrigins,
 	}
 	snapshot := pb.Snapshot{
 		Sessions:          sessions,
@@ -339,6 +340,7 @@ func (i *IRCServer) Unmarshal(data []byte) (uint64, error) {
 		MaxSessions:             snapshot.Config.MaxSessions,
 		MaxChannels:             snapshot.Config.MaxChannels,
 		Banned:                  snapshot.Config.Banned,
+		WhitelistedOrigins:      snapshot.Config.WhitelistedOrigins,
 	}
 	if i.Config.Banned == nil {
 		i.Config.Banned = make(map[string]string)
